@@ -147,10 +147,10 @@ Qed.
 (* any spelling of a plain (delimiter-free) alias header is de-aliased to the alias's canonical tokens *)
 Theorem alias_any_spelling dc h d0 d :
   (mem h columns = true -> to_snake_case h = h) ->
-  contains [58%N] h = false -> alias_get (to_snake_case h) aliases = Some (d0 :: d) -> seqb s_jr (py_strip h) = false ->
+  contains [58%N] h = false -> alias_get (to_snake_case h) aliases = Some (d0 :: d) ->
   process_header aliases columns dc h = Some (d0 :: d).
 Proof.
-  intros columns_fixed Hc Ha Hjr. unfold process_header.
+  intros columns_fixed Hc Ha. unfold process_header.
   assert (Hal : is_alias aliases (to_snake_case h) = true) by (unfold is_alias; rewrite Ha; reflexivity).
   assert (E1 : mem h columns && negb (is_alias aliases h) = false).
   { destruct (mem h columns) eqn:E; [|reflexivity]. rewrite <- (columns_fixed eq_refl), Hal. reflexivity. }
@@ -160,7 +160,7 @@ Proof.
     apply orb_false_iff. split; [|apply IH; exact Hr]. unfold starts_with, COLON2 in *. cbn [prefix] in *. destruct (ceq 58%N c); [discriminate|reflexivity]. }
   rewrite Hc2, Bool.orb_false_r. destruct dc.
   - rewrite (py_split_no_sep COLON2 h Hc2). cbn [map]. rewrite snake_strip, Ha, app_nil_r. reflexivity.
-  - rewrite (py_split_no_sep [58%N] h Hc). cbn [map index_of]. rewrite Hjr. cbn [option_map]. rewrite snake_strip, Ha, app_nil_r. reflexivity.
+  - rewrite (py_split_no_sep [58%N] h Hc). cbn [map removelast index_of]. rewrite snake_strip, Ha, app_nil_r. reflexivity.
 Qed.
 End PH.
 
